@@ -1039,6 +1039,11 @@ impl RelationalSlab {
         }
     }
 
+    /// Replaces the contents of this slab with the contents of a snapshot.
+    pub fn replace_with(&self, snapshot: RelationalSlabSnapshot) {
+        *self.tables.write() = snapshot.tables;
+    }
+
     /// Update a row's columns.
     ///
     /// # Errors
